@@ -13,12 +13,20 @@ func runCase(c Case) string {
 	case "SCAN":
 		return fmtTokens(parser.Scan(unhex(c.Fields[0])))
 	case "SPLIT":
-		parts := parser.SplitStatements(unhex(c.Fields[0]))
+		// pieces ;; tokens(whole) ;; tokens(piece 1) ;; …
+		src := unhex(c.Fields[0])
+		parts := parser.SplitStatements(src)
 		sb := new(strings.Builder)
 		sb.WriteString(strconv.Itoa(len(parts)))
 		for _, p := range parts {
 			sb.WriteByte(' ')
 			sb.WriteString(hexs(p))
+		}
+		sb.WriteString(" ;; ")
+		sb.WriteString(fmtTokens(parser.Scan(src)))
+		for _, p := range parts {
+			sb.WriteString(" ;; ")
+			sb.WriteString(fmtTokens(parser.Scan(p)))
 		}
 		return sb.String()
 	}
